@@ -87,6 +87,10 @@ type Session struct {
 	SessionID string
 	Class     []byte
 
+	// tornDown is set by SessionTeardown once the session's resources have
+	// been released (guarded by mu)
+	tornDown bool
+
 	mu sync.RWMutex
 }
 
